@@ -52,7 +52,7 @@ _CHECK = dict(
          "non-trivial = a reorg notice was observed AND a renewed confirmation/spend was observed after it (faulty arms: and a fault "
          "fired); distinct = distinct event-trace hash",
     states_measure="distinct (tip-base, blocks disconnected in a row, clients holding a notification, outstanding rescans, epoch) tuples",
-    expected_probes=["probe_deep_reorg", "probe_split_connect", "probe_done", "probe_stale_rescan_answer", "probe_stale_rescan_delivered",
+    expected_probes=["probe_unwatched_hint_judged", "probe_epoch_with_hint_query_disabled", "probe_deep_reorg", "probe_split_connect", "probe_done", "probe_stale_rescan_answer", "probe_stale_rescan_delivered",
                      "probe_rescan_failed", "probe_lazy_notice_sent", "probe_script_reuse", "probe_bad_client_hint", "probe_orphan_details",
                      "probe_hint_frozen_above_tip", "probe_unwatched_reorg", "fault_crash", "fault_write_fail", "restart",
                      "fault_backend_rpc_error", "fault_backend_missed_notification", "probe_glue_handle_missed_blocks",
@@ -88,7 +88,10 @@ _TEXT = dict(
                "holds the notification of that block; a client whose rescan is answered (or whose tx was mined after it registered) holds "
                "the notification as soon as the model says N confirmations were reached; Updates carry the model's count; Done only past "
                "the safety limit; the persisted hint never lies above the height where the request is confirmed/spent, and the rescan range "
-               "lnd asks for after a restart covers that height. Backend-glue arms: the same chain events reach the TxNotifier through "
+               "lnd asks for after a restart covers that height; this includes the hints of requests whose clients all cancelled before a restart "
+               "(the next notifier instance is never asked about them: judged unless the chain was rolled back below the hint while nobody "
+               "watched) and notifier instances that run with the cache's QueryDisable option (hints are written, never read; the simulator "
+               "reads them through its own cache object). Backend-glue arms: the same chain events reach the TxNotifier through "
                "the shared glue of chainntnfs/interface.go under transient RPC failures and lost notifications; while the dispatcher "
                "lags, every Confirmed/Spend must name a block that was part of the chain at some time and contains the request at the "
                "named place, never two without a reorg notice between; when it stands at the tip (it must, a bounded number of blocks "
